@@ -55,10 +55,10 @@ func C08_Run(job string) {
 	case "struct":
 		schema := c08Schema()
 		in := func(k int) map[string]any {
-			return map[string]any{"a": x + k, "l": []any{y, k}, "n": map[string]any{"x": y, "y": "yy"}, "pN": map[string]any{"x": k}, "c": x}
+			return map[string]any{"a": x + k, "c2": 1, "l": []any{y, k}, "n": map[string]any{"x": y, "y": "yy"}, "pN": map[string]any{"x": k}, "c": x}
 		}
 		val := func(k int) c08Dest {
-			return c08Dest{A: x + k, S: "", L: []int{y, k}, N: Inner{X: y, Y: "yy"}, PN: &Inner{X: k}, C: x}
+			return c08Dest{A: x + k, C2: 1, S: "", L: []int{y, k}, N: Inner{X: y, Y: "yy"}, PN: &Inner{X: k}, C: x}
 		}
 		// what each call returns running alone
 		want := make([]string, 3)
